@@ -731,6 +731,8 @@ class Emitter:
     def bin_expr(s, op, t, a, b):
         if op == 'sub' and getattr(s, 'ptrdiff', False) and a.kind == 'local' and b.kind == 'local' and a.name in getattr(s, 'p2i', {}) and b.name in s.p2i:
             # opt-in (--ptrdiff): sub(ptrtoint p, ptrtoint q) stays a pointer difference (CBMC folds same-object offsets; through uintptr_t it cannot)
+            if getattr(s, 'ptrdiff0', False):   # opt-in (--ptrdiff0): equal pointers (e.g. both null: empty std::vector) give 0 without asking CBMC for a difference inside the null object
+                return s.mask('((uint8_t*)%s == (uint8_t*)%s ? (uint64_t)0 : (uint64_t)((uint8_t*)%s - (uint8_t*)%s))' % (s.expr(s.p2i[a.name]), s.expr(s.p2i[b.name]), s.expr(s.p2i[a.name]), s.expr(s.p2i[b.name])), t)
             return s.mask('(uint64_t)((uint8_t*)%s - (uint8_t*)%s)' % (s.expr(s.p2i[a.name]), s.expr(s.p2i[b.name])), t)
         A, B = s.expr(a, t), s.expr(b, t)
         if isinstance(t, FpTy):
@@ -1403,6 +1405,7 @@ def main():
     ap.add_argument('--typed-alloc', action='store_true', help='operator new / new[] with a non-literal size: allocate n elements of the type the result is used as')
     ap.add_argument('--ptrdiff', action='store_true', help='emit sub(ptrtoint p, ptrtoint q) as the pointer difference p - q instead of subtracting uintptr_t values')
     ap.add_argument('--ptrcmp', action='store_true', help='emit <, <=, >, >= on pointers as pointer comparisons instead of comparing uintptr_t values')
+    ap.add_argument('--ptrdiff0', action='store_true', help='with --ptrdiff: emit p == q ? 0 : p - q')
     ap.add_argument('--wrap', action='append', default=[], help='sym: every call of sym goes to w_<sym> (defined by the harness/model); the real body is still emitted under its own name')
     a = ap.parse_args()
     m = parse_module(open(a.ll).read())
@@ -1425,6 +1428,7 @@ def main():
     e.wraps = set('@' + w for w in a.wrap)
     e.typed_alloc = a.typed_alloc
     e.ptrcmp = a.ptrcmp; e.ptrdiff = a.ptrdiff
+    e.ptrdiff0 = a.ptrdiff0
     e.loopcuts = {}
     for lc in a.loopcut:
         fn, hook, vs = lc.split(':'); e.loopcuts.setdefault(fn, []).append(dict(hook=hook, vars=vs.split(',')))
